@@ -1,7 +1,7 @@
 (* Entry point of the extracted runner: [run fn arg].  The Python side finds function
    numbers by parsing the "(* FN name *)" comments below. *)
 From Coq Require Import ZArith List Bool.
-From PyCraft Require Import Base.Res Base.Sx Model.VarInt Model.Versions Model.Position Model.SignedHex Model.Sha1 Model.Tables Model.FieldTypes Model.Nbt Model.Prog Model.CustomPackets Spec.ProtocolTable Model.Frame Model.Aes Model.Cfb8 Model.Rsa Model.Dispatch Model.ExcChain Model.Reactors Model.Negotiate.
+From PyCraft Require Import Base.Res Base.Sx Model.VarInt Model.Versions Model.Position Model.SignedHex Model.Sha1 Model.Tables Model.FieldTypes Model.Nbt Model.Prog Model.CustomPackets Spec.ProtocolTable Model.Frame Model.Aes Model.Cfb8 Model.Rsa Model.Dispatch Model.ExcChain Model.Reactors Model.Negotiate Model.Conc.
 Import ListNotations.
 Open Scope Z_scope.
 
@@ -141,7 +141,7 @@ Definition sx_inpkt (s : sx) : inpkt :=
   | 7 => IPlayDisconnect
   | _ => IOther (sx_z (sx_nth s 1))
   end.
-Definition sx_step (s : sx) : step :=
+Definition sx_step (s : sx) : Reactors.step :=
   match sx_z (sx_nth s 0) with 0 => SRecv (sx_inpkt (sx_nth s 1)) | _ => SFlush (Z.to_nat (sx_z (sx_nth s 1))) end.
 Definition of_outpkt (o : outpkt) : sx :=
   match o with
@@ -165,6 +165,15 @@ Definition sx_sbeh (s : sx) : sbeh :=
 Definition of_tcp (c : tcp) : sx := L [I (t_pv c); I (t_next c); I (match t_follow c with FRequest => 0 | FLoginStart => 1 end)].
 Definition of_noutcome (o : Negotiate.outcome) : sx :=
   match o with Login p => L [I 0; I p] | Mismatch p s => L [I 1; I p; of_bool s] | InvalidStatus => L [I 2] | NoVersions => L [I 3] end.
+
+(* ---- interleaving model ---- *)
+Definition sx_op (s : sx) : op :=
+  match sx_z (sx_nth s 0) with 0 => OQueue (sx_z (sx_nth s 1)) | 1 => OForce (sx_z (sx_nth s 1)) | _ => ODisconnect (sx_bool (sx_nth s 1)) end.
+Definition of_pkt (p : pkt) : sx := L [I (fst p); of_bool (snd p)].
+Definition of_wevent (e : wevent) : sx := match e with SendLen p => L [I 0; of_pkt p] | SendBody p => L [I 1; of_pkt p] end.
+Definition of_conc (s : Conc.st) : sx :=
+  L [L (map of_wevent (Conc.wire s)); L (map of_pkt (Conc.queue s)); of_opt of_nat (Conc.lock s); of_bool (Conc.interrupt s); of_bool (Conc.sock_open s);
+     of_opt (fun r => L [L (map of_pkt (fst r)); of_opt of_pkt (snd r)]) (parse_wire (Conc.wire s))].
 
 Definition run (fn : Z) (a : sx) : sx :=
   match fn with
@@ -265,5 +274,8 @@ Definition run (fn : Z) (a : sx) : sx :=
       | None => L []
       | Some (alw, d) => let r := connect 2 e alw d (sx_sbeh (sx_nth a 5)) in L [of_zs alw; I d; L (map of_tcp (fst r)); of_noutcome (snd r)]
       end
+  | 95 => (* FN conc_run : (limit programs schedule) *)
+      of_conc (Conc.run_conc (Z.to_nat (sx_z (sx_nth a 0))) (map (fun t => Z.to_nat (sx_z t)) (sx_list (sx_nth a 2)))
+                        (Conc.init (map (fun p => map sx_op (sx_list p)) (sx_list (sx_nth a 1)))))
   | _ => L [I 99]
   end.
